@@ -118,7 +118,7 @@ def Matches : List (Option Nat) → List Nat → Prop
 /-! ### A reference executor for jump programs (Yellow Paper §9.4, Appendix H)
 
 Only what is needed to say *where execution continues*: STOP, JUMPDEST, PUSH0..PUSH32, JUMP, JUMPI, PC, POP,
-CALLVALUE, MSIZE, MSTORE (memory size only), INVALID.  Anything else halts as `unsupported`.
+CALLVALUE, CALLDATALOAD(0) of a one-word calldata, AND, ADD, MSIZE, MSTORE (memory size only), INVALID.  Anything else halts as `unsupported`.
 `J_JUMP`: `μ'_pc = μ_s[0]`, exceptional halt unless `μ_s[0] ∈ D(I_b)`; `J_JUMPI`: `μ'_pc = μ_s[0]` if `μ_s[1] ≠ 0`,
 `μ_pc + 1` otherwise.  After a jump the JUMPDEST at the destination is executed like any instruction. -/
 
@@ -140,31 +140,36 @@ structure RunResult where
 
 def ceil32 (n : Nat) : Nat := ((n + 31) / 32) * 32
 
+/-- what the program can read from its environment: `CALLVALUE`, and a calldata that is one 32-byte word -/
+structure RunEnv where
+  callvalue : Nat
+  cdword : Nat := 0
+
 /-- `fuel` bounds the number of executed instructions (the reference has no gas) -/
-def run (code : List Nat) (callvalue : Nat) : Nat → RunState → RunResult
+def run (code : List Nat) (env : RunEnv) : Nat → RunState → RunResult
   | 0, st => ⟨.outOfFuel, st⟩
   | fuel + 1, st =>
     let insn := decode code st.pc
     let w := insn.opcode
     let st1 : RunState := { st with trace := st.pc :: st.trace }
     let next (stack : List Nat) (msize : Nat := st.msize) : RunResult :=
-      run code callvalue fuel { st1 with pc := st.pc + 1, stack, msize }
+      run code env fuel { st1 with pc := st.pc + 1, stack, msize }
     if w = STOP then ⟨.stop, st1⟩
     else if w = JUMPDEST then next st.stack
     else if w = 0x5f then next (0 :: st.stack)
     else if PUSH1 ≤ w ∧ w ≤ PUSH32 then
-      run code callvalue fuel { st1 with pc := insn.nextPc, stack := insn.operand.getD 0 :: st.stack }
+      run code env fuel { st1 with pc := insn.nextPc, stack := insn.operand.getD 0 :: st.stack }
     else if w = JUMP then
       match st.stack with
       | d :: rest =>
-        if jumpAccepted code d then run code callvalue fuel { st1 with pc := d, stack := rest }
+        if jumpAccepted code d then run code env fuel { st1 with pc := d, stack := rest }
         else ⟨.invalidJump, { st1 with stack := rest }⟩
       | _ => ⟨.underflow, st1⟩
     else if w = JUMPI then
       match st.stack with
       | d :: c :: rest =>
         if c ≠ 0 then
-          if jumpAccepted code d then run code callvalue fuel { st1 with pc := d, stack := rest }
+          if jumpAccepted code d then run code env fuel { st1 with pc := d, stack := rest }
           else ⟨.invalidJump, { st1 with stack := rest }⟩
         else next rest
       | _ => ⟨.underflow, st1⟩
@@ -173,7 +178,20 @@ def run (code : List Nat) (callvalue : Nat) : Nat → RunState → RunResult
       match st.stack with
       | _ :: rest => next rest
       | _ => ⟨.underflow, st1⟩
-    else if w = 0x34 then next (callvalue :: st.stack)
+    else if w = 0x34 then next (env.callvalue :: st.stack)
+    else if w = 0x35 then            -- CALLDATALOAD: only offset 0 of the one-word calldata is modelled
+      match st.stack with
+      | 0 :: rest => next (env.cdword :: rest)
+      | _ :: _ => ⟨.unsupported, st1⟩
+      | _ => ⟨.underflow, st1⟩
+    else if w = 0x16 then            -- AND
+      match st.stack with
+      | a :: b :: rest => next ((a &&& b) :: rest)
+      | _ => ⟨.underflow, st1⟩
+    else if w = 0x01 then            -- ADD
+      match st.stack with
+      | a :: b :: rest => next (((a + b) % 2 ^ 256) :: rest)
+      | _ => ⟨.underflow, st1⟩
     else if w = 0x59 then next (st.msize :: st.stack)
     else if w = 0x52 then
       match st.stack with
@@ -182,7 +200,7 @@ def run (code : List Nat) (callvalue : Nat) : Nat → RunState → RunResult
     else if w = 0xfe then ⟨.invalidOpcode, st1⟩
     else ⟨.unsupported, st1⟩
 
-def runCode (code : List Nat) (callvalue fuel : Nat) : RunResult :=
-  run code callvalue fuel { pc := 0, stack := [], msize := 0, trace := [] }
+def runCode (code : List Nat) (callvalue fuel : Nat) (cdword : Nat := 0) : RunResult :=
+  run code { callvalue, cdword } fuel { pc := 0, stack := [], msize := 0, trace := [] }
 
 end HalmosVerif.Spec.Code
